@@ -126,6 +126,13 @@ TOL_EQUIV = 2e-6
 TOL_DIST = 1e-6
 TOL_ANGLE = 0.05
 DEGENERATE_SIGMA2 = 2e-3
+# Reference points within about one degree of a straight line: still inside
+# the property (non-collinear, well conditioned enough for 1e-11 A with a
+# converged eigen-solver), but a class of its own in the signatures.
+NEAR_COLLINEAR_SIGMA2 = 1e-2
+# class D tuples below this are the "ill-conditioned stratum" that also the
+# quick tier runs, with the full rotation x translation product
+STRATUM_SIGMA2 = 5e-2
 
 PSEUDO = ("N+1", "C-1")
 
@@ -322,6 +329,19 @@ def reference_lists(nb, deep):
     return [(c, r) for c, r in out if len(r) >= 3]
 
 
+def _altitude(xyz):
+    """Smallest altitude of a triangle (cheap pre-filter, pure Python)."""
+    a, b, c = xyz
+    u = [b[i] - a[i] for i in range(3)]
+    v = [c[i] - a[i] for i in range(3)]
+    w = [c[i] - b[i] for i in range(3)]
+    cr = (u[1] * v[2] - u[2] * v[1], u[2] * v[0] - u[0] * v[2],
+          u[0] * v[1] - u[1] * v[0])
+    area2 = math.sqrt(sum(x * x for x in cr))
+    longest = math.sqrt(max(sum(x * x for x in e) for e in (u, v, w)))
+    return area2 / longest if longest else 0.0
+
+
 def sigma2(P):
     P = np.asarray(P, float)
     s = np.linalg.svd(P - P.mean(0), compute_uv=False)
@@ -444,9 +464,13 @@ def run_fit(case):
     for refs in case["refsets"]:
         n = len(refs)
         P = np.array([res.atoms[r].xyz for r in refs], float)
-        if sigma2(P) < DEGENERATE_SIGMA2:
+        s2 = sigma2(P)
+        if s2 < DEGENERATE_SIGMA2:
             bump("fit:skipped-degenerate-reference-points")
             continue
+        near = s2 < NEAR_COLLINEAR_SIGMA2
+        if near:
+            bump("fit:near-collinear-reference-points(sigma2<0.01A)")
         out["nontrivial"].append(f"fit:{case['res']}:{atom}:{','.join(refs)}")
         Pl = P.tolist()
         pl = p.tolist()
@@ -503,7 +527,8 @@ def run_fit(case):
             for i in np.nonzero(err > TOL_FIT)[0][:40]:
                 r, t = pairs[i]
                 got = res_o[i]
-                sig = f"C15/fit/error>1e-6/translation={labels[t]}"
+                sig = ("C15/fit/error>1e-6/near-collinear-references" if near
+                       else f"C15/fit/error>1e-6/translation={labels[t]}")
                 if planar and np.all(np.isfinite(got)):
                     Srt = S[r, t]
                     mir = _reflect(E[r, t], [Srt[0], Srt[1], Srt[k3]])
@@ -515,7 +540,10 @@ def run_fit(case):
                          "refs": list(refs), "rot": specs[r],
                          "trans": trans[t], "observed": got.tolist(),
                          "expected": E[r, t].tolist(),
-                         "error_A": float(err[i])},
+                         "error_A": float(err[i]),
+                         "reference_points_sigma2_A": s2,
+                         "failing_in_this_block": int((err > TOL_FIT).sum()),
+                         "fits_in_this_block": len(pairs)},
                         dict(base, rots=[specs[r]], trans=[trans[t]],
                              only="image"))
         # ---- 2. handedness probe: a fourth point one A above the plane ----
@@ -541,6 +569,8 @@ def run_fit(case):
                 mir = _reflect(want, [Sr[0], Sr[1], Sr[k3]])
                 if vol < 0 and np.linalg.norm(got - mir) <= 1e-3:
                     sig = "C15/fit/mirror-image"
+                elif near:
+                    sig = "C15/fit/error>1e-6/near-collinear-references"
                 else:
                     sig = ("C15/fit/error>1e-6/probe-point/translation="
                            f"{labels[i_eq]}")
@@ -577,6 +607,8 @@ def run_fit(case):
                        if d_move > TOL_EQUIV else
                        "C15/fit/error>1e-6/translation="
                        + tlabel(R2 @ tarr[i_eq] + t2a))
+                if near:
+                    sig = "C15/fit/error>1e-6/near-collinear-references"
                 violate(sig,
                         {"template": case["res"], "atom": atom,
                          "refs": list(refs), "rot": specs[r],
@@ -614,7 +646,9 @@ def run_fit(case):
                 if d_move <= TOL_EQUIV:
                     bump("fit:rounded-structure-moves-ok")
                     continue
-                violate("C15/fit/does-not-move-with-structure/"
+                violate("C15/fit/error>1e-6/near-collinear-references"
+                        if near else
+                        "C15/fit/does-not-move-with-structure/"
                         "rounded-structure",
                         {"template": case["res"], "atom": atom,
                          "refs": list(refs), "rot": sp, "trans": trans[i_eq],
@@ -1304,10 +1338,18 @@ def enumerate_cases(tier, seed):
     # -- fits: one case per (class, template, atom) owning distinct tuples
     trans = TRANSLATIONS + ([TRANSLATION_PDBMAX] if thorough else [])
     plan_of = ({"A": "full5", "B": "full15", "C": "prod30", "D": "lite30",
-                "E": "lite30"} if thorough else
-               {"A": "full15", "B": "lite60", "C": "lite60"})
+                "D!": "prod30", "E": "lite30"} if thorough else
+               {"A": "full15", "B": "lite60", "C": "lite60", "D!": "prod30"})
     grouped = OrderedDict()
-    for cls, rn, an, refs, n_alias in fit_tuples(thorough).values():
+    dom = domain()
+    for cls, rn, an, refs, n_alias in fit_tuples(True).values():
+        if cls == "D":
+            xyz = [dom[rn].atoms[r].xyz for r in refs]
+            if _altitude(xyz) < 4 * STRATUM_SIGMA2 and (
+                    sigma2(xyz) < STRATUM_SIGMA2):
+                cls = "D!"
+        if cls not in plan_of:
+            continue
         c = grouped.setdefault((cls, rn, an), {
             "mode": "fit", "res": rn, "atom": an, "class": cls,
             "plan": plan_of[cls], "refsets": [], "aliases": 0,
